@@ -125,7 +125,7 @@ def check_property(prop, tier):
             for key, g in sorted(W.GENERATORS.items()):
                 if key[0] in results:
                     try:
-                        w = g(dict(skip_cases=findings.open_cases(prop)), 'thorough')
+                        w = g(dict(skip_cases=findings.open_cases()), 'thorough')
                     except Exception as e:
                         w = dict(found=False, note='generator error %r' % e)
                     crosscheck.append(dict(unit=key[0], function=key[1], disagreement=bool(w.get('found')), detail=w.get('note') or w.get('input')))
